@@ -712,6 +712,8 @@ class Interp:
                     hi += 1
                 if isinstance(lo, int) and isinstance(hi, int) and 0 <= lo <= hi <= len(base):
                     return list(base[lo:hi])
+                if isinstance(lo, int) and isinstance(hi, int):
+                    raise Unknown("core::panicking: slice index [%r..%r] out of range for a length of %d" % (lo, hi, len(base)))
             if isinstance(base, (list, tuple, str)) and isinstance(i, int) and not isinstance(i, bool):
                 raise Unknown("core::panicking: index out of bounds: the len is %d but the index is %d" % (len(base), i))
             raise Unknown("index %r[%r]" % (base, i))
@@ -1959,7 +1961,9 @@ class Interp:
                     hi += 1
                 if isinstance(lo, int) and isinstance(hi, int) and 0 <= lo <= hi <= len(base):
                     return list(base[lo:hi])
-                raise Unknown("slice bounds (a run-time abort for these values)")
+                raise Unknown("core::panicking: slice index [%r..%r] out of range for a length of %d" % (lo, hi, len(base)))
+            if isinstance(base, (list, tuple)) and isinstance(i, int) and not isinstance(i, bool):
+                raise Unknown("core::panicking: index out of bounds: the len is %d but the index is %d" % (len(base), i))
             raise Unknown("index")
         if gen == "alloc::vec::Vec::<T, A>::splice":
             base = self.ev(args[0], env, depth)
